@@ -159,6 +159,9 @@ type reqSpec struct {
 	// OnlyFrom names the provider that alone announces this binding (a
 	// newer revision of the service): see Run for what is expected.
 	OnlyFrom string
+	// Want, when set, is what the back-end must have received (name=value
+	// of every set scalar field, sorted).
+	Want []string
 }
 
 var methods = []struct{ full, svc string }{
@@ -170,9 +173,11 @@ var methods = []struct{ full, svc string }{
 // one per binding.
 var httpSpecs = map[string][]reqSpec{
 	"/vf.rs.A/Get": {
-		{Verb: "GET", Path: "/rs/a/k1", Binding: "var"},
-		{Verb: "GET", Path: "/rs/alt/k2/7", Binding: "var"},
-		{Verb: "POST", Path: "/rs/a", Body: `{"a":"k3"}`, Binding: "body"},
+		{Verb: "GET", Path: "/rs/a/k1", Binding: "var", Want: []string{"a=k1"}},
+		{Verb: "GET", Path: "/rs/alt/k2/7", Binding: "var", Want: []string{"a=k2", "n=7"}},
+		{Verb: "GET", Path: "/rs/ab/k9/v9", Binding: "var", Want: []string{"a=k9", "b=v9"}},
+		{Verb: "GET", Path: "/rs/ab/k9/v9?n=5&b=q", Binding: "var", Want: []string{"a=k9", "b=v9", "n=5"}},
+		{Verb: "POST", Path: "/rs/a", Body: `{"a":"k3","b":"w3","n":"3"}`, Binding: "body", Want: []string{"a=k3", "b=w3", "n=3"}},
 		{Verb: "POST", Path: "/vf.rs.A/Get", Body: `{"a":"k4"}`, Binding: "implicit"},
 		{Verb: "GET", Path: "/rs/a/k5?b=q", Binding: "var"},
 		{Verb: "GET", Path: "/rs/x/k6", Binding: "var", Unless: "C"},
@@ -210,9 +215,10 @@ var httpSpecs = map[string][]reqSpec{
 
 // answer is the classified outcome of one request.
 type answer struct {
-	Tag    string // answering back-end ("" if none)
-	Method string // method stamped by the back-end
-	Class  string // served | unimplemented | status(<n>) | transport-error | timeout
+	Items  []string // what the back-end received
+	Tag    string   // answering back-end ("" if none)
+	Method string   // method stamped by the back-end
+	Class  string   // served | unimplemented | status(<n>) | transport-error | timeout
 	Detail string
 }
 
@@ -267,13 +273,14 @@ func (w *Worker) doHTTP(s reqSpec) answer {
 	switch resp.StatusCode {
 	case 200:
 		var v struct {
-			Tag    string `json:"tag"`
-			Method string `json:"method"`
+			Tag    string   `json:"tag"`
+			Method string   `json:"method"`
+			Items  []string `json:"items"`
 		}
 		if err := json.Unmarshal(b, &v); err != nil {
 			return answer{Class: "status(200-bad-body)", Detail: string(b)}
 		}
-		return answer{Tag: v.Tag, Method: v.Method, Class: "served"}
+		return answer{Tag: v.Tag, Method: v.Method, Items: v.Items, Class: "served"}
 	case 404, 501:
 		return answer{Class: "unimplemented", Detail: fmt.Sprintf("%d %.100s", resp.StatusCode, b)}
 	}
@@ -514,7 +521,11 @@ func (w *Worker) Run(h History, draws int) *Outcome {
 					}
 					continue
 				}
-				check("http", s.Binding, w.doHTTP(s))
+				ans := w.doHTTP(s)
+				check("http", s.Binding, ans)
+				if s.Want != nil && ans.Class == "served" && live[ans.Tag] && strings.Join(ans.Items, ",") != strings.Join(s.Want, ",") {
+					fail(step, "http["+s.Binding+"]:wrong-fields-bound", "%s %s was served by %s, which received %v; the request binds %v", s.Verb, s.Path, ans.Tag, ans.Items, s.Want)
+				}
 			}
 			for i := 0; i < draws; i++ {
 				check("grpc", "", w.doGRPC(md.full))
